@@ -3,21 +3,25 @@ from vcheck import sexp
 
 ID = "C20"
 LEVEL = "proof"
-LEAN_IMPORTS = ["WM.Props.C20Varint", "WM.Props.C20IdSets", "WM.Props.C20NumLists", "WM.Props.C20Hash", "WM.Props.C20Sort", "WM.Props.C20Compound", "WM.Props.C20Base85"]
-_IDSET_THEOREMS = """bitset_iter_sorted bitset_mem ondisk_mem bitset_add bitset_discard bitset_ofSource bitset_update
+LEAN_IMPORTS = ["WM.Props.C20Varint", "WM.Props.C20IdSets", "WM.Props.C20NumLists", "WM.Props.C20Hash", "WM.Props.C20HashBytes", "WM.Props.C20Sort", "WM.Props.C20Compound", "WM.Props.C20Base85"]
+_IDSET_THEOREMS = """bitset_iter_sorted bitset_mem ondisk_mem bitset_to_disk_ondisk bitset_add bitset_discard bitset_ofSource bitset_update
 bitset_intersection_update bitset_difference_update bitset_union bitset_intersection bitset_difference
 bitset_invert bitset_clear bitset_trim bitset_resize bitset_len bitset_bool bitset_first bitset_last
 bitset_before bitset_after sis_ofSource sis_contains sis_add sis_discard sis_before sis_after sis_first_last
 sis_update sis_intersection sis_difference sis_invariant sis_invert_exact sis_invert_partial
 rev_iter rev_contains rev_first rev_last rev_len rev_add rev_discard rev_contains_exact rev_contains_out_of_range
-rev_len_exact rev_add_out_of_range rev_update rev_difference_update rev_unsupported multi_unsupported
+rev_len_exact rev_add_out_of_range rev_update rev_difference_update rev_intersection_update rev_unsupported multi_unsupported
 multi_iter_sorted multi_contains multi_len
+bitset_logic_or bitset_logic_and bitset_logic_andnot bitset_logic_trimmed bitset_logic_and_empty
+idset_pool_step idset_pool_run
 delta_roundtrip delta_roundtrip_inv fixed_roundtrip fixed_get varints_roundtrip growable_contents growable_fits
 growable_extend growable_thresholds growable_nat_never_fails growable_readback
 hash_build_total hash_writer_formats hash_writer_rejects hash_lookup hash_get_contains hash_items
 ordered_writer_rejects ordered_writer_formats ordered_closest_key ordered_items_from
+struct_roundtrip struct_rejects struct2_roundtrip structfile_read_write structfile_string_roundtrip
+hash_record_bytes hash_file_open hash_lookup_bytes hash_items_bytes
 extsort_sorted_perm extsort_reduce_bound extsort_rejects compound_member_bytes compound_directory
-compound_writer_streams b85_roundtrip b85_chars_ascending""".split()
+compound_writer_streams subfile_read subfile_read_all subfile_read_chunks b85_roundtrip b85_chars_ascending""".split()
 THEOREMS = (["WM.C20.varint_roundtrip", "WM.C20.zigzag_roundtrip", "WM.C20.signed_varint_roundtrip",
              "WM.C20.encode_bytes"] + ["WM.C20." + t for t in _IDSET_THEOREMS])
 PARTIAL = {
@@ -26,7 +30,8 @@ PARTIAL = {
                                  "proved for SortedIntSet([1,2,9]).invert(5)); `sis_invert_exact` states what the loop does",
     "WM.C20.rev_unsupported": "ReverseIdSet has no before/after/copy/union/intersection/difference/invert: they raise "
                               "NotImplementedError (full statement `rev_api_full` is false, negation proved; 7 recorded "
-                              "findings); its inherited intersection_update is modelled and run but not proved",
+                              "findings); the inherited update/difference_update/intersection_update are proved "
+                              "(rev_update, rev_difference_update, rev_intersection_update)",
     "WM.C20.multi_unsupported": "MultiIdSet has no first/last/before/after/copy/union/intersection/difference/invert "
                                 "(NotImplementedError; `multi_api_full` false, negation proved; 9 recorded findings)",
     "WM.C20.rev_contains": "needs i < limit; outside it `rev_contains_exact`/`rev_contains_out_of_range` state what the "
@@ -35,23 +40,33 @@ PARTIAL = {
                       "(len() raises ValueError when that is negative)",
     "WM.C20.rev_add": "needs n < limit; `rev_add_out_of_range`: for n >= limit iteration is unchanged, only the wrapped "
                       "set loses n",
-    "WM.C20.hash_lookup": "record-level model: the byte encoding of the `!ii`/`!Iq`/`!qi` structs, the header, directory "
-                          "and pickled extras are parsed by the harness and compared field by field, not modelled; the "
-                          "format limits are hypotheses through buildE (hash_writer_formats / hash_writer_rejects); the "
-                          "position index is read from the GrowableArray bytes (ordered_writer_formats)",
+    "WM.C20.hash_lookup_bytes": "the pickled extras (and, for an ordered file, the position index stored after the "
+                                "pickle inside the extras region) are an opaque blob below 2^31 bytes; the reader is "
+                                "proved on the bytes the (format-checked) writer produced, with the default `length`; a "
+                                "corrupt file (negative numbers in a struct) is outside the model",
     "WM.C20.compound_member_bytes": "directory kept as a list: the header back-patch, reading the directory position "
-                                    "and the pickle round trip are not modelled; SubFile.read(n) chunking is exercised "
-                                    "end-to-end only (seek/read slices), the theorem reads whole members",
+                                    "and the pickle round trip are not modelled; the member view of a non-mmapped file "
+                                    "(SubFile.read(n)/read()/chunked reading) is modelled and proved separately "
+                                    "(subfile_read, subfile_read_all, subfile_read_chunks) for non-negative positions; "
+                                    "SubFile.seek(where, 2) computes length - where (io files: length + where; equal only "
+                                    "for where = 0) and a seek to a negative position lets read() reach the bytes before the "
+                                    "member: both are mirrored by the model and run model <-> code only",
     "WM.C20.growable_contents": "GrowableArray._retype's `except ValueError: self.array = list(...)` fallback (arrays "
                                 "without 'q' support, Python < 3.3) is not modelled",
 }
 RULE = ("varint: every n < 2^14 plus boundary-biased samples up to 2^70 (non-trivial: more than one byte). "
         "id sets: random op programs (3-24 ops; values biased to byte boundaries, 8k-1/8k/8k+1, beyond the array) on "
         "BitSet/OnDiskBitSet/SortedIntSet/ReverseIdSet/MultiIdSet (non-trivial: a mutator changed the set and a query "
-        "returned a member). number lists: delta lists, GrowableArray append sequences across 255/256, 65535/65536, "
+        "returned a member); programs over a pool of 2-5 named BitSet/SortedIntSet registers (from_bytes arrays of length "
+        "0..9 incl. untrimmed ones, BitSet(source,size), SortedIntSet) where results of union/intersection/difference "
+        "(method and operator forms) and of the in-place variants are fed back as operands on either side (non-trivial: "
+        "a binary op's right operand was the result of an earlier binary op and an observation was non-empty). number lists: delta lists, GrowableArray append sequences across 255/256, 65535/65536, "
         "2^31, 2^32, 2^63 (non-trivial: a retype happened), fixed/varint/Simple16/GInts lists (non-trivial: >= 2 distinct "
         "numbers). hash files: 0..5000 keys, 8 hash functions incl. constant and 2-3-valued ones, start offsets 0, 3, "
-        "~2^16, ~2^31, ~2^32 (non-trivial: >= 2 pairs with a bucket collision or duplicate key). external sort: run sizes "
+        "~2^16, ~2^31, ~2^32 (non-trivial: >= 2 pairs with a bucket collision or duplicate key); byte level: 0..60 pairs "
+        "after 0/1/3/17/300 foreign bytes, whole file compared byte by byte and the model reader run on the real bytes; "
+        "StructFile numbers for b/B/H/i/I/q/Q around every power-of-two boundary (non-trivial: inside the format, "
+        "more than one byte), strings across 127/128 and 16383/16384. external sort: run sizes "
         "1..7, maxfiles 2..4 (non-trivial: more runs than maxfiles). compound: 1..8 members / interleaved sub-stream "
         "writes with buffer sizes 0..64 (non-trivial: >= 2 members with data / a flush happened). "
         "distinct = distinct canonical (component, input)")
@@ -114,9 +129,9 @@ def bytes_to_chars(b):
 def run(ctx):
     import os
     import time
-    from gen import c20_idsets, c20_numlists, c20_hash, c20_misc
+    from gen import c20_idsets, c20_numlists, c20_hash, c20_misc, c20_hashbytes
     streams = [("varint", _varints), ("idsets", c20_idsets.run), ("numlists", c20_numlists.run),
-               ("hash", c20_hash.run), ("misc", c20_misc.run)]
+               ("hash", c20_hash.run), ("hashbytes", c20_hashbytes.run), ("misc", c20_misc.run)]
     only = os.environ.get("C20_ONLY")
     # corpus replay first
     import json
@@ -142,7 +157,7 @@ def replay(ctx, rec):
     op program and are re-run alone; for the other streams the generating stream is re-run with the
     recorded tier/seed (generation is a pure function of them) and the signature is looked for."""
     import os
-    from gen import c20_idsets, c20_numlists, c20_hash, c20_misc
+    from gen import c20_idsets, c20_numlists, c20_hash, c20_misc, c20_hashbytes
     sig = rec.get("signature", "")
     stored = rec.get("case")
     ctx.tier, ctx.seed = rec.get("tier", ctx.tier), rec.get("seed", ctx.seed)
@@ -152,7 +167,11 @@ def replay(ctx, rec):
         c20_idsets.replay_case(ctx, stored)
     elif head in ("HashReader", "HashWriter", "OrderedHashReader", "OrderedHashWriter", "HashWriter/HashReader"):
         c20_hash.run(ctx)
-    elif head in ("externalsort", "SortingPool", "compound", "CompoundStorage", "CompoundWriter", "base85",
+        if not any(v["signature"] == sig for v in ctx.violations):
+            c20_hashbytes.run(ctx)
+    elif head == "StructFile":
+        c20_hashbytes.run(ctx)
+    elif head in ("externalsort", "SortingPool", "compound", "CompoundStorage", "CompoundWriter", "SubFile", "base85",
                   "from_base85(to_base85(x))!=x"):
         c20_misc.run(ctx)
     elif head in ("varint-roundtrip", "zigzag-roundtrip"):
@@ -177,12 +196,12 @@ ASSUMPTIONS = [
 ]
 TRUSTED = [
     "CPython bisect/heapq.merge/sorted/set/array/struct/pickle/marshal/BytesIO (modelled by their specifications)",
-    "byte layout of the hash file's structs, directory and pickled extras, and of the compound directory pickle: "
-    "parsed by the harness and compared field by field with the model's positions/slots, not modelled as bytes",
+    "pickled extras of the hash file and the compound directory pickle: opaque (the hash file's header, records, "
+    "table slots, directory and trailing length are modelled as bytes: WM.HashBytes, whole files compared byte by byte)",
     "Simple16 and GInts codecs: not modelled, run end-to-end only",
 ]
 EXPLANATION = (
-    "Every run: (1) axiom audit of the 86 theorems; (2) correspondence: generated op programs / number lists / "
+    "Every run: (1) axiom audit of the theorems; (2) correspondence: generated op programs / number lists / "
     "key-value sets / sort inputs / member files are executed on the real whoosh classes and on the compiled Lean "
     "models, raw state compared (bit arrays, sorted arrays, typecodes, record positions, every hash-table slot, "
     "directory offsets, sub-stream blocks); (3) end-to-end: the public API against the Lean specification "
@@ -202,8 +221,9 @@ MANIFEST = {
                   "ReverseIdSet outside [0,limit) is described by rev_*_exact/_out_of_range. Hash files: record-level model with "
                   "the struct-format limits as checked preconditions (buildE/buildOrderedE), position index read from the "
                   "GrowableArray bytes. Not modelled: Simple16/GInts, "
-                  "byte-level struct/pickle layout, temp files of the sort, FieldedOrderedHash*, RoaringIdSet, b85encode/b85decode "
-                  "(last three are broken on this tree: recorded findings / out of the property's list). Trusted: Lean kernel "
+                  "byte-level struct/pickle layout, temp files of the sort, RoaringIdSet, b85encode/b85decode (broken on this tree: recorded findings / out of the "
+                  "property's list); FieldedOrderedHash* is not modelled but run end-to-end on generated multi-field files "
+                  "(three recorded findings, each with a proposed fix commit). Trusted: Lean kernel "
                   "+ propext/Quot.sound/Classical.choice, CPython stdlib pieces modelled by specification.",
     "technique": "machine-checked proof in Lean 4 over executable models + differential correspondence check and "
                  "spec-as-oracle end-to-end run against the implementation",
